@@ -19,17 +19,26 @@ from harness import core
 MODULE = 'PyPhysim.Properties.C13'
 DRIVER = 'drv_c13'
 CLAIM = {
-    'technique': 'Lean 4 theorems over the reals on formulas regenerated from the source + setter-machine '
-                 'induction; Float correspondence of the compiled model against the code',
+    'technique': 'Lean 4 theorems over the reals about formulas regenerated from the source (log/exp algebra, '
+                 'setter-machine induction, interval enclosure of log10(c/4pi)) + Float correspondence of the '
+                 'compiled model against the code',
     'text': 'Every numeric formula, literal, setter guard and area-type ladder of pathloss.py, antennagain.py and '
-            'dB2Linear/linear2dB is re-translated into Lean on every run; over the reals (log10 = Real.logb 10, '
-            '10^x = Real.rpow) the kernel checks for every model, every positive distance and every setter history: '
-            'monotone loss, linear = 10^(-dB/10) in (0,1], which_distance is a two-sided inverse, the '
-            'raise/clamp policy, C recomputed by every free-space setter, Okumura-Hata guards keep the slope '
-            'positive, Friis within 0.01 dB (interval enclosure of log10(c/4pi)), antenna gain peak/symmetric/floored.',
-    'note': 'Trusted: Lean kernel + Mathlib, harness/gen/c13.py (float-expression fragment: Python float ops <-> '
-            'real ops), the correspondence for the hand-written object machines. Binary64 rounding, numpy '
-            'broadcasting and shadowing (random, switched off) are outside the theorems.',
+            'dB2Linear/linear2dB is re-translated into Lean on every run. Over the reals (log10 = Real.logb 10, '
+            '10**x = Real.rpow) the kernel checks, for General/3GPP/free-space/METIS-PS7 (LOS, NLOS, any wall count)/'
+            'Okumura-Hata (all area types), every positive distance (scalar and array) and every setter history: loss '
+            'non-decreasing in distance; linear value = 10^(-dB/10) in (0,1]; which_distance(_dB) two-sided inverse of '
+            'calc_path_loss(_dB) wherever offered; negative loss raises or clamps to exactly 0 dB per flag; every '
+            'free-space setter recomputes C (history independence); Okumura-Hata guards keep the parameters in range and '
+            'the slope positive; free space with n = 2 within 0.01 dB of Friis (proved, not sampled); sector antenna '
+            'gain peaks at boresight, is symmetric, decreasing in |angle| and floored at ant_gain*10^(-Am/10).',
+    'note': 'Trusted beyond the common base: harness/gen/c13.py (float-expression fragment: Python float + - * / **2 '
+            '10**x log10 np.minimum <-> the same operations on reals; if-ladders on strings/comparisons; setter-guard '
+            'and setter-recompute patterns), and the seeded Float correspondence (98% of numeric outputs bit-identical, '
+            'rest within 1e-9) for the hand-written object machines, negative-loss policy and scalar/array dispatch. '
+            'Outside the theorems: binary64 rounding, numpy broadcasting, shadowing (random; switched off), non-positive '
+            'or NaN distances in arrays. Monotonicity of the General family carries the guard n >= 0 and the inverse '
+            'n != 0 (the setters accept any float; the negative-exponent counter-theorem is proved). One defect fixed '
+            '(PathLossMetisPS7.which_distance_dB was `pass`).',
 }
 
 PYERRS = ['ValueError', 'TypeError', 'IndexError', 'AssertionError', 'ZeroDivisionError', 'AttributeError',
@@ -319,7 +328,7 @@ def oh_setter(rng):
     if r == 1:
         v = rng.choice([30.0, 200.0]) if rng.chance(0.2) else rng.uniform(30.0, 200.0)
         if bad:
-            v = rng.choice([29.999, 200.001, 1.0, rng.uniform(0.1, 29.0), rng.uniform(201.0, 900.0)])
+            v = rng.choice([29.999, 200.001, 1.0, 1e8, rng.uniform(0.1, 29.0), rng.uniform(201.0, 900.0)])
         return ['hbs', v]
     if r == 2:
         v = rng.choice([1.0, 10.0]) if rng.chance(0.2) else rng.uniform(1.0, 10.0)
@@ -873,6 +882,18 @@ def oracle_case(rng, kind, hist_len):
     return case
 
 
+def corpus_oracles(ctx):
+    """corpus/c13/*.json: minimised past failures and boundary inputs, always run first"""
+    import glob
+    import json
+    import os
+    for fn in sorted(glob.glob(os.path.join(core.VERIF, 'corpus', 'c13', '*.json'))):
+        with open(fn) as f:
+            rec = json.load(f)
+        run_oracle(ctx, rec['call'], rec['case'])
+        ctx.branch('corpus')
+
+
 def oracles(ctx, n_cases, hist_len):
     rng = ctx.rng.fork('oracles')
     kinds = ['fs', 'fs', 'gen', 'gpp', 'ps7', 'ps7', 'oh', 'oh']
@@ -923,6 +944,7 @@ def check(ctx):
             raise
         ctx.notes.append('correspondence skipped: %s' % e)
         ctx.required_branches = []
+    corpus_oracles(ctx)
     oracles(ctx, n_or, hist)
 
 
